@@ -388,8 +388,9 @@ fn run_trace(seed: u64, nops: usize, c: &mut Counters) {
 				let codec = rng.below(n_codecs);
 				if let Some(file) = container_bytes(live[k].h.get(), &live[k].rs, &vals, codec) {
 					let rs = live[k].rs.clone();
+					let mut moved_mid_block = false;
 					let n = rng.below(vals.len() + 2);
-					let kind = rng.below(3);
+					let kind = rng.below(4);
 					let drop_reader_first = rng.coin();
 					let (got, kept): (Vec<Val>, Arc<Schema>) = match kind {
 						0 => {
@@ -414,11 +415,46 @@ fn run_trace(seed: u64, nops: usize, c: &mut Counters) {
 							drop(r);
 							(got, kept)
 						}
-						_ => {
+						2 => {
 							let mut r = Reader::from_reader(io::ChunkedBufRead::new(&file, vec![1 + rng.below(5)])).unwrap();
 							let kept = r.schema().clone();
 							let got = read_some(&mut r, &rs, n);
 							drop(r);
+							(got, kept)
+						}
+						_ => {
+							// the reader is moved while it is in the middle of a block: out of a heap slot that is then freed
+							// and reused, through a Vec that reallocates, and swapped with another reader that is also mid-block;
+							// whatever its block state refers to must move with it
+							moved_mid_block = true;
+							let cap = *rng.pick(&[1usize, 7, 64, 8192]);
+							let mut got = Vec::new();
+							let moved_out = {
+								let mut boxed = Box::new(Reader::from_reader(std::io::BufReader::with_capacity(cap, &file[..])).unwrap());
+								got = read_some(&mut *boxed, &rs, 1);
+								*boxed
+							};
+							let filler: Vec<Vec<u8>> = (0..4).map(|i| vec![0xA0 + i as u8; 64 << i]).collect();
+							let mut readers = Vec::with_capacity(1);
+							readers.push(moved_out);
+							let mut other = Reader::from_reader(std::io::BufReader::with_capacity(cap, &file[..])).unwrap();
+							let got_other_first = read_some(&mut other, &rs, 1);
+							readers.push(other); // reallocates: both readers move
+							readers.swap(0, 1);
+							let (a, b) = readers.split_at_mut(1);
+							std::mem::swap(&mut a[0], &mut b[0]);
+							let mut first = readers.remove(0);
+							got.extend(read_some(&mut first, &rs, vals.len() + 1));
+							let mut second = readers.pop().unwrap();
+							let mut got2 = got_other_first;
+							got2.extend(read_some(&mut second, &rs, vals.len() + 1));
+							if got2 != vals || got != vals {
+								c.mismatches.push("container read after moving the reader mid-block differs".into());
+							}
+							drop(filler);
+							let kept = first.schema().clone();
+							drop(second);
+							drop(first);
 							(got, kept)
 						}
 					};
@@ -433,6 +469,16 @@ fn run_trace(seed: u64, nops: usize, c: &mut Counters) {
 						live.push(Live {
 							rs,
 							h: Holder::Shared(kept),
+						});
+					}
+					if moved_mid_block {
+						c.op(match codec {
+							0 => "reader-moved-mid-block:null",
+							1 => "reader-moved-mid-block:deflate",
+							2 => "reader-moved-mid-block:snappy",
+							3 => "reader-moved-mid-block:bzip2",
+							4 => "reader-moved-mid-block:xz",
+							_ => "reader-moved-mid-block:zstandard",
 						});
 					}
 					c.op(match codec {
@@ -540,6 +586,89 @@ fn run_trace(seed: u64, nops: usize, c: &mut Counters) {
 					});
 				}
 				c.op("threads-first-use");
+			}
+			19 if !cfg!(miri) || rng.chance(1, 10) => {
+				// a block bigger than the reader's internal 8 KiB buffer, so that the block's decompressor is still in
+				// use when the reader is moved: read one value, move the reader out of a heap slot that is then freed
+				// and refilled, read on; swap two such readers and read on
+				let schema: Schema = "\"bytes\"".parse().unwrap();
+				let n_vals = 3 + rng.below(2);
+				let payloads: Vec<Vec<u8>> = (0..n_vals)
+					.map(|i| {
+						let len = 3000 + rng.below(if cfg!(miri) { 200 } else { 3000 });
+						(0..len).map(|k| (k as u8).wrapping_mul(31).wrapping_add(i as u8) ^ (rng.next_u32() as u8 & 0x0F)).collect()
+					})
+					.collect();
+				// (interpreting a compressor over 10 KB costs Miri minutes: there the block is stored, the moves are what matters)
+				let codec = if cfg!(miri) { 0 } else { rng.below(n_codecs) };
+				let comp = match codec {
+					1 => Compression::Deflate { level: CompressionLevel::new(1) },
+					2 => Compression::Snappy,
+					#[cfg(feature = "ffi_codecs")]
+					3 => Compression::Bzip2 { level: CompressionLevel::new(1) },
+					#[cfg(feature = "ffi_codecs")]
+					4 => Compression::Xz { level: CompressionLevel::new(1) },
+					#[cfg(feature = "ffi_codecs")]
+					5 => Compression::Zstandard { level: CompressionLevel::new(1) },
+					_ => Compression::Null,
+				};
+				let mut cfg = SerializerConfig::new(&schema);
+				let file = (|| {
+					let mut w = WriterBuilder::new(&mut cfg).compression(comp).sync_marker([7; 16]).build(Vec::new()).ok()?;
+					for p in &payloads {
+						w.serialize(serde_bytes::Bytes::new(p)).ok()?;
+					}
+					w.into_inner().ok()
+				})();
+				if let Some(file) = file {
+					let next = |r: &mut Reader<serde_avro_fast::de::read::ReaderRead<std::io::BufReader<&[u8]>>>| -> Option<Vec<u8>> {
+						r.deserialize_next::<serde_bytes::ByteBuf>().ok().flatten().map(|b| b.into_vec())
+					};
+					let cap = *rng.pick(&[64usize, 8192, 100_000]);
+					let mut got: Vec<Option<Vec<u8>>> = Vec::new();
+					// (the heap slot is released at the end of this block, once its content has been moved out)
+					let mut a = {
+						let mut boxed = Box::new(Reader::from_reader(std::io::BufReader::with_capacity(cap, &file[..])).unwrap());
+						got.push(next(&mut boxed));
+						*boxed
+					};
+					let filler: Vec<Vec<u8>> = (0..6).map(|i| vec![0xB0 + i as u8; 32 << i]).collect();
+					got.push(next(&mut a));
+					let mut b = Reader::from_reader(std::io::BufReader::with_capacity(cap, &file[..])).unwrap();
+					let mut got_b: Vec<Option<Vec<u8>>> = vec![next(&mut b)];
+					std::mem::swap(&mut a, &mut b);
+					// a is now the reader that has delivered one value, b the one that has delivered two
+					got_b.push(next(&mut a));
+					got.push(next(&mut b));
+					let mut v = vec![b, a];
+					v.reserve(16);
+					let (mut a2, mut b2) = (v.pop().unwrap(), v.pop().unwrap());
+					while let Some(x) = next(&mut a2) {
+						got_b.push(Some(x));
+						if got_b.len() > 8 {
+							break;
+						}
+					}
+					while let Some(x) = next(&mut b2) {
+						got.push(Some(x));
+						if got.len() > 8 {
+							break;
+						}
+					}
+					let want: Vec<Option<Vec<u8>>> = payloads.iter().cloned().map(Some).collect();
+					if got != want || got_b != want {
+						c.mismatches.push(format!("reader moved inside a big block reads differently (codec {codec})"));
+					}
+					drop(filler);
+					c.op(match codec {
+						1 => "reader-moved-in-big-block:deflate",
+						2 => "reader-moved-in-big-block:snappy",
+						3 => "reader-moved-in-big-block:bzip2",
+						4 => "reader-moved-in-big-block:xz",
+						5 => "reader-moved-in-big-block:zstandard",
+						_ => "reader-moved-in-big-block:null",
+					});
+				}
 			}
 			_ => {
 				// single-object round trip when something is live
